@@ -24,7 +24,8 @@ MECHANISMS = ('include', 'import', 'redefine', 'override', 'chained', 'locations
               'fallback_404', 'fallback_timeout', 'wildcard_load_namespace', 'xmldocument_parse',
               'hint_to_dict', 'hint_fetch_schema', 'hint_meta_namespace', 'hint_on_meta_element', 'hint_resource_outside',
               'api_include_schema', 'api_import_schema', 'api_add_schema')
-MAIN_KINDS = ('path', 'fileurl', 'remote', 'text_base', 'stream_url', 'stream_remote_url', 'stream_url_dotdot')
+MAIN_KINDS = ('path', 'fileurl', 'remote', 'text_base', 'stream_url', 'stream_remote_url', 'stream_url_dotdot',
+              'prebuilt_text')
 
 # (id, spelling template relative to the main document's directory, class of the target, marker id)
 # {W} = world root, {F} = inc.xsd / imp.xsd depending on the mechanism
@@ -333,6 +334,9 @@ class C12(Check):
             # what urlopen() returns for a remote URL: a file-like object that carries its origin in .url
             source = make_stream('buffered', text.encode(), url='http://sim.test/base/sand/main.xsd', seekable=False)
             peer.pages['http://sim.test/base/sand/main.xsd'] = text.encode()
+        elif main_kind == 'prebuilt_text':
+            # the caller's own XMLResource built from TEXT: it has no location, so nothing gives the schema a base
+            source = xmlschema.XMLResource(text)
         elif main_kind == 'stream_url_dotdot':
             # an open response whose origin is spelled THROUGH the sandbox but lies outside it
             world.write('base/other/main.xsd', text)
